@@ -4,7 +4,7 @@ from __future__ import annotations
 import ast
 
 from ..cfg import NORMAL, ALL, walk_local
-from ..facts import (cfg_of, call_name, calls_in, targets_of, guard_atoms,
+from ..facts import (runs_only_when, cfg_of, call_name, calls_in, targets_of, guard_atoms,
                      is_attr, is_name, enclosing, local_assigns, kwarg,
                      const_value, strip_await, resolve_local, bind_args)
 from ..loader import txt, AnchorError
@@ -82,31 +82,31 @@ def r71(ctx) -> None:
         n_sites += 1
         var = txt(arg)
         excluded = set()
+        for k in FORBIDDEN_QUOTED:
+            # on the true edge of a conjunction or the false edge of a
+            # disjunction alike
+            if runs_only_when(cfg, n, f'{k!r} in {var}', False):
+                excluded.add(k)
         for t in cfg.nodes:
             if t.kind != 'test':
                 continue
-            on_t = cfg.controlled_by(n, t, 't')
-            on_f = cfg.controlled_by(n, t, 'f')
-            if not (on_t or on_f):
-                continue
-            for a, pol in guard_atoms(t.stmt.test):
-                # atoms hold when on the true branch of a conjunction
-                if not on_t:
+            for edge, atoms in (('t', guard_atoms(t.stmt.test)),
+                                ('f', guard_atoms(ast.UnaryOp(
+                                    ast.Not(), t.stmt.test)))):
+                if not cfg.controlled_by(n, t, edge):
                     continue
-                for k in FORBIDDEN_QUOTED:
-                    if a == f'{k!r} in {var}' and pol is False:
-                        excluded.add(k)
-                # regex idiom: not pattern.search(var)
-                if pol is False and a.endswith(f'.search({var})'):
-                    pn = a.split('.')[-2] if '.' in a else ''
-                    try:
-                        pat, _ = class_pattern(ctx, st, pn)
-                        cs = rx.consumable(pat)
-                        for k in FORBIDDEN_QUOTED:
-                            if k[0] in cs:
-                                excluded.add(k)
-                    except AnchorError:
-                        pass
+                for a, pol in atoms:
+                    # regex idiom: not pattern.search(var)
+                    if pol is False and a.endswith(f'.search({var})'):
+                        pn = a.split('.')[-2] if '.' in a else ''
+                        try:
+                            pat, _ = class_pattern(ctx, st, pn)
+                            cs = rx.consumable(pat)
+                            for k in FORBIDDEN_QUOTED:
+                                if k[0] in cs:
+                                    excluded.add(k)
+                        except AnchorError:
+                            pass
         for k, nm in FORBIDDEN_QUOTED.items():
             R.check(k in excluded, f, n.stmt,
                     f'String.build: quoted form excludes {nm}',
